@@ -2,6 +2,7 @@
 import json
 import os
 import random
+import re
 
 import proglib
 import vlib
@@ -131,7 +132,12 @@ def batch(programs, tag="s"):
         for pk in p["pkgs"]:
             files = []
             for f in pk["files"]:
-                files.append({"name": pre + "/" + f["name"], "src": f["src"].replace('"m/', '"m/%s/' % pre)})
+                src = f["src"].replace('"m/', '"m/%s/' % pre)
+                if "@packageonly" in src:
+                    # allow-lists name packages by import path: keep them pointing at the relocated packages
+                    src = "\n".join(re.sub(r"(?<![\w/])m/", "m/%s/" % pre, l) if l.lstrip().startswith("// @packageonly") else l
+                                    for l in src.split("\n"))
+                files.append({"name": pre + "/" + f["name"], "src": src})
             pkgs.append({"path": "m/" + pre + pk["path"][1:], "name": pk["name"], "files": files})
     return {"id": "batch_" + tag, "pkgs": pkgs}, index
 
